@@ -68,6 +68,29 @@ class DFfield:
     x: int = attrs.field(default=0, validator=[_rec], converter=_conv, on_setattr=setters.validate)
 
 
+@attrs.define
+class DFv:
+    x: int = attrs.field(default=0, validator=_rec)
+
+
+@attrs.define
+class DFvl:
+    x: int = attrs.field(default=0, validator=[_rec, _rec])
+    y: int = attrs.field(default=0, converter=_conv)
+
+
+@attr.s(on_setattr=setters.validate, slots=True)
+class ASvs:
+    x = attr.ib(default=0, validator=_rec)
+
+
+@attrs.define(slots=False)
+class DFd(DF):
+    z: int = attrs.field(default=0, validator=_rec)
+
+
+VAL_ONLY = (DFv, DFvl, ASvs, DFd)
+
 NONBOOL_POOL = [1, 0, None, "yes", 1.0]
 
 
@@ -82,16 +105,19 @@ def _probe():
     def fired(fn):
         _log.clear()
         fn()
-        return (("v", "x") in _log, ("c",) in _log)
+        return (any(e[0] == "v" for e in _log), ("c",) in _log)
 
     init = [fired(lambda k=k: k(1)) for k in (AS, ASv, AScv, DF, DFfield)]
+    init_vo = [fired(lambda k=k: k(1))[0] for k in VAL_ONLY]
+    assign_vo = [fired(lambda i=i: setattr(i, "z" if isinstance(i, DFd) else "x", 2))[0] for i in [k(1) for k in VAL_ONLY]]
+    val_vo = [fired(lambda i=i: attr.validate(i))[0] for i in [k(1) for k in VAL_ONLY]]
     # instances for assignment / validate (their construction is not what we observe)
     insts = [k(1) for k in (ASv, AScv, DF, DFfield)]
     assign = [fired(lambda i=i: setattr(i, "x", 2)) for i in insts]
     val = [fired(lambda i=i: attr.validate(i)) for i in [AS(1)] + insts]
-    iv = {v for v, _ in init}
-    av = {v for v, _ in assign}
-    vv = {v for v, _ in val}
+    iv = {v for v, _ in init} | set(init_vo)
+    av = {v for v, _ in assign} | set(assign_vo)
+    vv = {v for v, _ in val} | set(val_vo)
     ic = {c for _, c in init}
     # ASv and DFfield hook only validate: converter must not run there; AScv and DF convert
     ac = {assign[1][1], assign[2][1]}
